@@ -171,6 +171,15 @@ func ReuseWAL(cfg *config.Config, dir string, nextSeq uint64) (*WAL, error) {
 	// Try the most recent one (last in sorted order)
 	latestWAL := files[len(files)-1]
 
+	// Never append behind a torn or damaged tail: replay stops at the damage, so anything
+	// written after it would be lost at the next recovery. Start a new file instead.
+	if !IsCleanWALFile(latestWAL) {
+		if !DisableRecoveryLogs {
+			fmt.Printf("Latest WAL file %s has a damaged tail, not reusing it\n", latestWAL)
+		}
+		return nil, nil
+	}
+
 	// Try to open for append
 	file, err := os.OpenFile(latestWAL, os.O_RDWR|os.O_APPEND, 0644)
 	if err != nil {
